@@ -156,7 +156,7 @@ func genJoin(engine, prop string, r *simrt.SplitMix) *JoinSc {
 	// thorough tier only (the guard comes first, so the quick tier draws exactly what it drew
 	// before): long histories - state that builds up over tens of output slices (recycled
 	// buffers, blocks that copies are carved from, counters that wrap)
-	if scale > 1 && (prop == "C03" || prop == "C09") && r.Intn(8) == 0 {
+	if scale > 1 && (prop == "C03" || prop == "C09" || prop == "C08" || prop == "C11") && r.Intn(8) == 0 {
 		n = between(r, 30*sc.JoinSize, 80*sc.JoinSize+7)
 	}
 
